@@ -16,8 +16,46 @@ def _outcome(fn):
     except Exception as e:
         return ("raise", f"{type(e).__name__}: {str(e)[:80]}")
 
+def judge_int(case):
+    """integer-dtype operands: an operation may refuse them (its documentation speaks of floating tensors), but an accepted
+    call returns the mathematical result - what torch returns for integer tensors, or the value computed in float64 -
+    never a truncated one"""
+    op = case["op"]
+    base = [np.asarray(values.small_int(tuple(s), salt=3 * i), dtype=np.int64) for i, s in enumerate(case["shapes"])]
+    if case.get("nonzero"): base = [np.where(a == 0, 4, a) for a in base]
+    lib = _outcome(lambda: np.asarray(cat.run_lib(case, [a.copy() for a in base])[0].data))
+    viol = []
+    if lib[0] == "ok":
+        refs = []
+        for arrs in ([a.copy() for a in base], [a.astype(np.float64) for a in base]):
+            r = _outcome(lambda: cat.run_ref(case, arrs))
+            if r[0] == "ok": refs.append(np.asarray(r[1], dtype=np.float64))
+        got = np.asarray(lib[1], dtype=np.float64)
+        if refs and not any(got.shape == r.shape and np.allclose(got, r, rtol=1e-6, atol=1e-9, equal_nan=True) for r in refs):
+            viol.append({"kind": f"{op}:integer-operands-value", "detail": f"int64 operands {[a.tolist() for a in base]}: library returned {got.tolist()}, "
+                         f"neither torch's integer result nor the float64 value {refs[-1].tolist()}"})
+    return {"nontrivial": lib[0] == "ok", "outcome": "int-" + lib[0], "violations": viol}
+
+def int_cases():
+    out = []
+    for s in ((), (3,), (2, 3)):
+        for o in ("add", "sub", "mul", "neg"):
+            out.append({"op": o, "shapes": [list(s)] * (1 if o == "neg" else 2), "args": {}, "int_operands": True})
+        out.append({"op": "div", "shapes": [list(s), list(s)], "args": {}, "int_operands": True, "nonzero": True})
+        for c in (2, 3.0, -4):
+            out.append({"op": "divc", "shapes": [list(s)], "args": {"c": c}, "int_operands": True, "nonzero": True})
+            out.append({"op": "rdiv", "shapes": [list(s)], "args": {"c": c}, "int_operands": True, "nonzero": True})
+            out.append({"op": "mulc", "shapes": [list(s)], "args": {"c": c}, "int_operands": True})
+        for n in (2, 3, -1, -1.0, -2, 0.5, 2.0, 0):
+            out.append({"op": "pow", "shapes": [list(s)], "args": {"n": n}, "int_operands": True, "nonzero": True})
+        out.append({"op": "sum", "shapes": [list(s)], "args": {"dim": None, "keepdims": False}, "int_operands": True})
+    out.append({"op": "matmul", "shapes": [[2, 3], [3, 2]], "args": {}, "int_operands": True})
+    return out
+
 def judge(case):
     op = case["op"]
+    if case.get("int_operands"):
+        return judge_int(case)
     if op.startswith("ctor:") or op.startswith("iter:"):
         return SPECIAL[op.split(":")[0]](case)
     arrays = cat.arrays_for(case)
@@ -229,7 +267,7 @@ def all_cases(tier):
             if not c.get("pats") and c["op"] not in ("pow", "rpow", "exp"):
                 for m in ("tiny", "large", "offset", "ones") + (() if c["op"] in ("log", "div", "rdiv") else ("zeros",)):
                     extra.append(dict(c, vmod=m))
-    return base + extra + ctor_cases() + iter_cases()
+    return base + extra + ctor_cases() + iter_cases() + int_cases()
 
 def replay(case):
     with harness.quiet():
